@@ -1,6 +1,8 @@
 package chainsim
 
 import (
+	"os"
+	"runtime"
 	"bytes"
 	"crypto/sha256"
 	"encoding/hex"
@@ -33,6 +35,7 @@ type replica struct {
 	lastCommitEvents int
 	height  int64
 	hash    []byte
+	hashes  map[int64][]byte // this replica's own commit hashes
 }
 
 type blockRecord struct {
@@ -57,6 +60,7 @@ type Exec struct {
 	acctOf   map[string]int // address hex -> account index
 	times    map[int64]int64
 	txBytes  map[[2]int][]byte
+	txSpecs  map[[2]int]TxSpec
 	txIndex  map[string]bool
 	history  []*blockRecord
 	initReq  abci.RequestInitChain
@@ -77,12 +81,16 @@ var digitsRe = regexp.MustCompile(`[0-9A-Fa-f]{6,}|[0-9]+`)
 
 func haltCause(r interface{}) string {
 	s := fmt.Sprint(r)
-	if i := strings.Index(s, "\n"); i >= 0 {
+	if i := strings.Index(s, "\ngoroutine"); i >= 0 {
 		s = s[:i]
 	}
+	if i := strings.Index(s, "\nstack"); i >= 0 {
+		s = s[:i]
+	}
+	s = strings.Join(strings.Fields(s), " ")
 	s = digitsRe.ReplaceAllString(s, "#")
-	if len(s) > 80 {
-		s = s[:80]
+	if len(s) > 110 {
+		s = s[:110]
 	}
 	return s
 }
@@ -127,9 +135,23 @@ func (e *Exec) call(r *replica, fn func()) (pan interface{}) {
 		if x := recover(); x != nil {
 			pan = x
 		}
+		quiesce()
 	}()
 	fn()
 	return nil
+}
+
+var baseGoroutines = 0
+
+// quiesce waits until the goroutines an ABCI call left behind have finished. Every IAVL
+// iterator runs a producer goroutine that keeps walking the tree (and loading nodes from the
+// DB) after the consumer stopped early and called Close; if it is starved until a later Commit
+// prunes those nodes it panics ("Value missing for hash"). The simulator does not own that
+// schedule, so it lets those goroutines drain between calls (observation O2 in DESIGN.md).
+func quiesce() {
+	for i := 0; i < 20000 && runtime.NumGoroutine() > baseGoroutines; i++ {
+		runtime.Gosched()
+	}
 }
 
 func evDigest(evs []abci.Event) string {
@@ -173,6 +195,9 @@ func (e *Exec) logf(format string, a ...interface{}) {
 
 func diffField(a, b string) string {
 	fa, fb := strings.Fields(a), strings.Fields(b)
+	if len(fa) > 0 && (fa[0] == "commit" || fa[0] == "info") {
+		return "apphash"
+	}
 	for i := range fa {
 		if i >= len(fb) || fa[i] != fb[i] {
 			if j := strings.Index(fa[i], "="); j > 0 {
@@ -218,7 +243,7 @@ func Execute(tr *Trace) (res *core.Result, err error) {
 
 func executeOnce(tr *Trace) (res *core.Result, err error) {
 	e := &Exec{tr: tr, res: &core.Result{Stats: core.NewStats()}, log: sha256.New(), acctOf: map[string]int{}, times: map[int64]int64{},
-		txBytes: map[[2]int][]byte{}, txIndex: map[string]bool{}, poolGifts: new(big.Int), sigSeen: map[string]bool{}, unknownBal: map[string]string{}, invPrev: map[string]string{}}
+		txBytes: map[[2]int][]byte{}, txSpecs: map[[2]int]TxSpec{}, txIndex: map[string]bool{}, poolGifts: new(big.Int), sigSeen: map[string]bool{}, unknownBal: map[string]string{}, invPrev: map[string]string{}}
 	defer func() {
 		rpcclient.SimTxLookup = nil
 		core.ClearMapSeed()
@@ -230,6 +255,10 @@ func executeOnce(tr *Trace) (res *core.Result, err error) {
 			panic(r)
 		}
 	}()
+	for i := 0; i < 2000; i++ {
+		runtime.Gosched() // let leftovers of an earlier run in this process finish
+	}
+	baseGoroutines = runtime.NumGoroutine()
 	e.kr = NewKeyring(tr.KeySeed, tr.Genesis.KeyTypes)
 	for i := range tr.Genesis.Balances {
 		e.acctOf[hx(e.kr.Get(i).Addr)] = i
@@ -260,7 +289,7 @@ func executeOnce(tr *Trace) (res *core.Result, err error) {
 		if aerr != nil {
 			return nil, fmt.Errorf("cannot build app: %v", aerr)
 		}
-		e.reps = append(e.reps, &replica{idx: i, cfg: rc, db: db, app: app})
+		e.reps = append(e.reps, &replica{idx: i, cfg: rc, db: db, app: app, hashes: map[int64][]byte{}})
 	}
 	e.logf("seed %d replicas %d", tr.Seed, len(e.reps))
 	e.runInitChain()
@@ -282,6 +311,7 @@ func (e *Exec) harness(format string, a ...interface{}) {
 
 func (e *Exec) snapshot0(phase, txKind string) *AppState {
 	st, err := e.reps[0].app.Snapshot()
+	quiesce()
 	if err != nil {
 		e.addViol(viol("C11", "state-undecodable", e.step, map[string]string{"phase": phase}, "working state cannot be decoded: %v", err))
 		e.stopped = true
@@ -410,7 +440,7 @@ func (e *Exec) checkSet(st *AppState, h int64, phase string) {
 		return cs[i].addr < cs[j].addr
 	})
 	if uint64(len(cs)) > maxV {
-		if cs[maxV-1].power == cs[maxV].power {
+		if maxV > 0 && cs[maxV-1].power == cs[maxV].power {
 			e.res.Stats.Probe("cutoff_tie")
 		}
 		e.res.Stats.Probe("cutoff_active")
@@ -433,6 +463,15 @@ func (e *Exec) checkSet(st *AppState, h int64, phase string) {
 		if d := diffSets(wm, gotm); d != "" {
 			e.addViol(viol("C05", "set-equals-staked", e.step, map[string]string{"phase": phase, "layer": "model"},
 				"after %s of height %d Tendermint's set differs from the reference model's staked set: %s", phase, h, d))
+		}
+	}
+	// C09 (model-free): a tombstoned validator never holds power again
+	for ah, si := range st.Sign {
+		if si.Tombstoned {
+			if p, ok := gotm[ah]; ok && p > 0 {
+				e.addViol(viol("C09", "tombstoned-has-no-power", e.step, map[string]string{"phase": phase},
+					"tombstoned validator %s has power %d in the set that results from %s of height %d", ah, p, phase, h))
+			}
 		}
 	}
 	// C09 (model-free): no jailed validator holds power
@@ -583,6 +622,7 @@ func (e *Exec) runBlock(bi int) {
 		// on a halt the working state is still inspected: what had already been done?
 		if st, err := e.reps[0].app.Snapshot(); err == nil && exp != nil && preBB != nil {
 			e.checkHaltState(preBB, st, exp)
+			e.flush()
 		}
 		return
 	}
@@ -705,7 +745,7 @@ func (e *Exec) oneReadOnly(r *replica, ro *ReadOnly, h int64) {
 		}
 		spec := *ro.Tx
 		e.resolveFee(&spec)
-		f := BuildTx(e.kr, spec, e.prior)
+		f := BuildTx(e.kr, spec, e)
 		if ro.Kind == "checktx" {
 			var resp abci.ResponseCheckTx
 			p = e.call(r, func() { resp = r.app.CheckTx(abci.RequestCheckTx{Tx: f.Bytes}) })
@@ -733,23 +773,32 @@ func (e *Exec) oneReadOnly(r *replica, ro *ReadOnly, h int64) {
 		if _, isCrash := p.(simdb.Crash); isCrash {
 			e.harness("crash sentinel outside Commit")
 		}
-		e.addViol(viol("C11", "panic-escaped", e.step, map[string]string{"call": ro.Kind}, "a panic escaped %s: %s", ro.Kind, haltCause(p)))
-		r.halted = "readonly panic"
-		e.stopped = true
-		return
+		if ro.Kind == "checktx" || ro.Kind == "simulate" {
+			// a transaction that is refused must leave the process running
+			e.addViol(viol("C11", "panic-escaped", e.step, map[string]string{"call": ro.Kind}, "a panic escaped %s: %s", ro.Kind, haltCause(p)))
+			r.halted = "readonly panic"
+			e.stopped = true
+			return
+		}
+		// a panic inside a plain Query is outside the statements (they only say queries never change
+		// state): recorded as an observation, the state check below still applies
+		e.res.Stats.Probe("query_panic:" + haltCause(p))
 	}
 	after := r.app.DumpAll()
 	if d := DiffDumps(before, after); len(d) > 0 {
 		e.addViol(viol("C11", "read-only-call-changed-state", e.step, map[string]string{"call": ro.Kind},
 			"%s changed %d key(s) of the working state, e.g. %s", ro.Kind, len(d), d[0]))
+		if r.idx == 0 {
+			// keep the before-images of later oracles honest
+			e.snapshot0("ReadOnly", "")
+		}
 	}
 }
 
-func (e *Exec) prior(block, tx int) []byte {
-	if b, ok := e.txBytes[[2]int{block, tx}]; ok {
-		return b
-	}
-	return []byte("no-such-prior-tx")
+// PriorSpec implements Prior: the spec executed at (block, tx), fee already resolved.
+func (e *Exec) PriorSpec(block, tx int) (TxSpec, bool) {
+	s, ok := e.txSpecs[[2]int{block, tx}]
+	return s, ok
 }
 
 func (e *Exec) resolveFee(s *TxSpec) {
@@ -772,11 +821,18 @@ func (e *Exec) deliver(bi, ti int, rec *blockRecord, h int64) {
 		return
 	}
 	e.resolveFee(&spec)
-	f := BuildTx(e.kr, spec, e.prior)
+	f := BuildTx(e.kr, spec, e)
 	e.txBytes[[2]int{bi, ti}] = f.Bytes
+	if spec.Kind != "replay" {
+		e.txSpecs[[2]int{bi, ti}] = spec
+	} else if f.IsReplayOf {
+		e.res.Stats.C("tx_replays", 1)
+		spec = f.Spec // the facts (signer, fee, message) are those of the original
+	}
 	rec.txs = append(rec.txs, f.Bytes)
 	var pred TxPrediction
-	if e.m.Desync == "" {
+	modelLive := e.m.Desync == ""
+	if modelLive {
 		pred = e.m.PredictTx(&f)
 	} else {
 		pred.NoClaim = true
@@ -811,6 +867,10 @@ func (e *Exec) deliver(bi, ti int, rec *blockRecord, h int64) {
 				stage = "handler"
 			}
 		}
+		// a fee of zero leaves nothing to observe: there the model's verdict on the ante handler decides
+		if f.Fee != nil && f.Fee.Sign() == 0 && !pred.NoClaim && pred.AnteOK && !pred.MustReject {
+			stage = "handler"
+		}
 	}
 	rec.preAnte = append(rec.preAnte, stage == "pre")
 	e.res.Stats.C("tx_"+stage, 1)
@@ -836,10 +896,13 @@ func (e *Exec) deliver(bi, ti int, rec *blockRecord, h int64) {
 	if !pred.NoClaim && !pred.MustReject && pred.AnteOK && stage == "pre" {
 		e.res.Stats.Probe("unexpected_reject:" + spec.Kind)
 	}
-	if pred.NoClaim && stage != "pre" && !f.IsReplayOf {
+	if modelLive && pred.NoClaim && stage != "pre" {
 		// mutated bytes that the application accepted: the model cannot follow
 		e.m.Desync = "mutated transaction bytes were accepted"
 		e.res.Stats.Probe("mutated_bytes_accepted")
+		if os.Getenv("VERIF_DEBUG") != "" {
+			fmt.Fprintf(os.Stderr, "DEBUG mutated accepted: %+v code=%d stage=%s\n", spec, resp0.Code, stage)
+		}
 	}
 	// ---- C11: a rejected transaction leaves no trace (except the fee once the ante handler passed)
 	if stage != "ok" && before != nil {
@@ -872,7 +935,7 @@ func (e *Exec) deliver(bi, ti int, rec *blockRecord, h int64) {
 		e.checkParams(before, st, &spec, stage)
 	}
 	// ---- model follows the observed stage, then full comparison
-	if e.m.Desync == "" && !pred.NoClaim || f.IsReplayOf && stage != "pre" {
+	if e.m.Desync == "" && !pred.NoClaim {
 		e.applyToModel(&f, stage)
 	}
 	if stage == "ok" && spec.To == AcctPool && (spec.Kind == "send" || spec.Kind == "dao_transfer") {
@@ -908,17 +971,6 @@ func balOf(st *AppState, addrHex string) *big.Int {
 }
 
 func (e *Exec) applyToModel(f *TxFacts, stage string) {
-	if f.IsReplayOf {
-		// find the original spec to know what the bytes mean
-		orig := e.tr.Blocks[f.Spec.ReplayBlock].Txs[f.Spec.ReplayTx]
-		e.resolveFee(&orig)
-		of := BuildTx(e.kr, orig, e.prior)
-		if !of.Decodable {
-			return
-		}
-		e.m.ApplyTx(&of, stage)
-		return
-	}
 	e.m.ApplyTx(f, stage)
 }
 
@@ -986,6 +1038,7 @@ func (e *Exec) commit(bi int, rec *blockRecord, h int64) {
 			countHook[bi] = r.lastCommitEvents
 		}
 		r.height, r.hash = h, resp.Data
+		r.hashes[h] = resp.Data
 		d := digestCommit(resp)
 		e.logf("h%d r%d %s", h, r.idx, d)
 		if canon == "" {
@@ -1123,7 +1176,10 @@ func (e *Exec) recover(r *replica, h int64, rec *blockRecord, canonHash []byte, 
 	}
 	// the hash reported for an already committed height must be the one that was returned then
 	if info.LastBlockHeight >= 1 {
-		want := e.commitHashAt(info.LastBlockHeight, h, canonHash)
+		want := r.hashes[info.LastBlockHeight] // what this replica itself answered when it committed that height
+		if want == nil {
+			want = e.commitHashAt(info.LastBlockHeight, h, canonHash)
+		}
 		if want != nil && !bytes.Equal(want, info.LastBlockAppHash) {
 			e.addViol(viol(prop, "hash-after-recovery", e.step, attrs, "replica %d reopened at height %d with hash %x, the chain committed %x there", r.idx, info.LastBlockHeight, info.LastBlockAppHash, want))
 			e.dropReplica(r)
@@ -1241,6 +1297,7 @@ func (e *Exec) replayBlock(r *replica, x int64, br *blockRecord, prop string, at
 		return fail("Commit", want, got)
 	}
 	r.hash = cresp.Data
+	r.hashes[x] = cresp.Data
 	return true
 }
 
